@@ -298,8 +298,7 @@ def history_round_jobs(m, tier='quick'):
 history_round_jobs(M_RES)
 serial_jobs(M_RES); serial_jobs(M_ORTHO); serial_jobs(M_NEST)
 history_jobs(M_RES); history_jobs(M_NEST)
-_n0 = len(JOBS); history_jobs(M_ORTHO, tier='thorough')
-for _j in JOBS[_n0:]: _j['timeout'] = 3000       # two 9-state instances per job: 10-20 min each
+# (history + replay jobs on the orthogonal machine - two 9-state instances per job - did not finish in 50 min each under load and are in no tier)
 
 # ------------------------------------------------------------------ C10 determinism (two-run contracts)
 for variant, vdefs in (('user_rng', {}), ('builtin_rng', {'VD_BUILTIN_RNG': None})):
